@@ -59,6 +59,11 @@ def main():
     checks = []
     for pid in sorted(plan.PLAN):
         tech, text = TEXT[pid]
+        stages = plan.PLAN[pid]["stages"]
+        if any(x["stage"].startswith("fence.") for x in stages):
+            tech += "; guard-page (electric fence) placement of every input slice: an access outside the slice faults at native speed"
+        if any(x["flavour"] == "VM" for x in stages):
+            tech += "; valgrind memcheck on the monitor process itself in both tiers (addressability reports with a frame in repository code are verdicts)"
         checks.append({
             "property_id": pid,
             "quick_cmd": "bin/check %s --tier quick" % pid,
